@@ -93,6 +93,8 @@ def run(res):
             for m, w in zip(metas, want))
         if not ok or "err" in a or "panic" in a:
             pbad.append((q, a))
+    from props.policy_corr import run_policy_corr
+    run_policy_corr(res, rng, thorough)
     res.sample({"case": pl.short(out[5]["case"]), "metadata": (out[5]["comp"] or {}).get("metas", [])[:1]})
     res.oblige("O:returned metadata is faithful: count, well-formed disjoint ranges covering every value exactly once, per-range counts, congruence modulo the divisor, complete prefix-free codes, <= 2^level ranges, moments = initial differences",
                "O", not fbad, str([(w, pl.short(r["case"])) for r, w in fbad[:2]])[:900])
